@@ -19,7 +19,9 @@ TECHNIQUE = (
     "(identifier re-assigned in between) and one client whose defaults are re-assigned (or a second live client with other "
     "defaults); every exchange of a sequence is judged on its own with the values in force for that request. Silence inside a "
     "pending chain is scripted both in client polls and in seconds (a reply arriving after a fraction of the silence limit "
-    "max(timeout, 20 s)), with effective timeouts on both sides of the client's poll interval"
+    "max(timeout, 20 s)), with effective timeouts on both sides of the client's poll interval. The service of the request is a "
+    "dimension: ReadDataByIdentifier (typed and raw) and raw requests (send_raw) for service ids ISO 14229-1 does not define "
+    "(KWP 2000 legacy, reserved, manufacturer / supplier specific), judged by the same reference machine"
 )
 LEVEL_TEXT = (
     "Fault enumeration: every event script up to length 4 (quick) / 5 (thorough) over the 11-letter alphabet {timeout, silence, "
@@ -31,11 +33,13 @@ LEVEL_TEXT = (
     "length 3 (quick) / 4 (thorough) as the second exchange of a sequence x {shared config object sets nothing, max_retry, timeout, "
     "both} with drawn first/third exchanges, client defaults (re-assigned on one client or held by a second live client), request "
     "object reuse (identifier re-assigned / unchanged / fresh, typed and raw), slow-but-in-time first replies, and silence-limit "
-    "sequences. Held = every recorded trace is one the reference machine allows for the values in force for that request."
+    "sequences. Every exhaustive script additionally runs x max_retry 0..3 as a raw request for one of 12 service ids outside ISO 14229-1 "
+    "(the id rotates), as do a quarter of the random scripts, long runs, and a quarter of the sequences (the service id of the request "
+    "object may change between the exchanges). Held = every recorded trace is one the reference machine allows for the values in force for that request."
 )
 LEVEL_NOTE = "Trusted: reference machine vf/models/client.py (appendix B), scripted transport vf/scripted_transport.py, virtual clock vf/vtime.py."
 RULE = (
-    "cases = (script, max_retry, timeout source, timeout value, seconds of silence before replies that follow a pending), and for sequences (sequence description, index of the exchange); "
+    "cases = (script, max_retry, timeout source, timeout value, seconds of silence before replies that follow a pending, service id if not ReadDataByIdentifier), and for sequences (sequence description, index of the exchange); "
     "scripts enumerated exhaustively to the length bound plus seeded random and long-run scripts; non-trivial = script contains at "
     "least one fault/pending/busy letter, or the exchange is a later exchange of a sequence; distinct = distinct case tuples; "
     "distinct_traces = distinct recorded (write/read/reconnect, outcome) sequences"
@@ -47,17 +51,31 @@ ASSUMPTIONS = [
     "a per-request config field that is unset takes the default of the client the request is sent on, at the time of that request; "
     "a reply is matched against the PDU the request object has when request() is called",
     "a reply that follows a responsePending after at most max(timeout, 20 s) - 0.5 s of silence is 'received in time' for every timeout > 0, however the client slices its waiting into polls",
+    "for a request whose service id ISO 14229-1 does not define, a positive reply matches iff its id is the request's id + 0x40; negative replies (busy, pending, final, "
+    "undecodable) mean the same as for every other service",
     "line-based transports (LinesTransportMixin) are not driven here: an end of stream is the scripted 'empty read' event (C08/C19 drive the real line transports)",
 ]
 EXHAUSTIVE = {"quick": True, "thorough": True}
 EXHAUSTIVE_NOTE = (
-    "all scripts of length <=4 (quick) / <=5 (thorough) over 11 letters x max_retry {0,1,2,3} x {default, override} timeout source; "
+    "all scripts of length <=4 (quick) / <=5 (thorough) over 11 letters x max_retry {0,1,2,3} x {default, override} timeout source, and x max_retry {0,1,2,3} as a raw "
+    "request for a non-ISO service id (id and timeout source rotate); "
     "all scripts of length <=3 / <=4 as second exchange of a usage sequence x 4 shapes of the shared config object (other sequence dimensions drawn)"
 )
 
 LETTERS = "TZCEWBPMXNF"
 FINAL_CODES = [0x10, 0x11, 0x12, 0x13, 0x22, 0x24, 0x31, 0x33, 0x35, 0x36, 0x37, 0x70, 0x72, 0x7E, 0x7F]
 REQ = bytes([0x22, 0x12, 0x34])
+# The service of the request is a dimension of its own: besides ReadDataByIdentifier (typed and raw) raw requests are sent for
+# service ids ISO 14229-1 does not define (send_raw(): "arbitrary data packets"; what service scans, fuzzers and manufacturer
+# specific diagnostics send): KWP 2000 legacy services, ISO-reserved values, the vehicle-manufacturer (0xA0..0xB9) and the
+# system-supplier (0xBA..0xBE) ranges.  Listed from the standard, not from gallia's enumeration.  The statement makes no
+# difference between services: busy / pending / faults / final replies mean the same for every request.
+NON_ISO_SIDS = [0xBA, 0x1A, 0xA0, 0x21, 0xBE, 0x00, 0x30, 0xB9, 0x3B, 0x81, 0xA5, 0x0F]
+NON_ISO_TAG = "/raw-request-for-a-non-ISO-service"
+
+
+def raw_request_pdu(sid: int | None) -> bytes:
+    return REQ if sid is None else bytes([sid]) + REQ[1:]
 
 
 def shards(tier: str, seed: int) -> list[dict[str, Any]]:
@@ -95,14 +113,34 @@ def required_reach(tier: str) -> dict[str, int]:
               "pending-silence-seconds.reply-delivered:later-than-limit-in-polls-x-timeout": 300,
               "seq.later-use.reply-after-seconds-of-silence": 300,
               "seq.later-use.reply-after-seconds-of-silence:timeout-below-poll-interval": 100})
+    # the service of the request: raw requests for service ids outside ISO 14229-1 meet every event, busy replies in every position
+    r.update({f"service.non-iso.event:{c}": 10000 for c in LETTERS})
+    r.update({"service.non-iso": 50000, "service.non-iso.busy-with-attempts-left:first-reply": 3000,
+              "service.non-iso.busy-with-attempts-left:after-retries": 800, "service.non-iso.busy-inside-pending-chain": 1000,
+              "service.non-iso.busy-on-last-attempt": 100, "long.service.non-iso": 36,
+              "seq.service.non-iso": 3000, "seq.later-use.service:non-iso": 2000, "seq.service.non-iso.busy-with-attempts-left:first-reply": 200,
+              "seq.later-use.service-changed:iso-to-non-iso": 200, "seq.later-use.service-changed:non-iso-to-non-iso": 500,
+              "seq.later-use.service-changed:non-iso-to-iso": 40})
     return r
 
 
 def event_bytes(letter: str, idx: int, req: bytes = REQ, other: int = 0x4321) -> tuple[Any, ...]:
-    """the bytes of one scripted event for the request PDU `req` (a ReadDataByIdentifier request for one identifier); `other` is
-    the identifier a same-service stale reply carries"""
+    """the bytes of one scripted event for the request PDU `req` (service id + a two-byte identifier); `other` is the identifier a
+    same-service stale reply carries (ReadDataByIdentifier).  For a service id outside ISO 14229-1 nothing but the service id
+    relates a positive reply to its request, and only a negative reply can be undecodable."""
     if letter in "TZCEW":
         return (letter,)
+    if req[0] != 0x22:
+        sid = req[0]
+        assert sid < 0x40 or 0x80 <= sid < 0xC0, sid  # a request service id: its positive reply id is sid + 0x40
+        if letter == "M":
+            # reply of another (ISO) service / negative reply naming another service / positive reply of the neighbouring non-ISO service
+            return ("reply", [bytes([0x50, 0x01]), bytes([0x7F, 0x10, 0x31]), bytes([(sid ^ 1) + 0x40, req[1], req[2], idx & 0xFF])][idx % 3])
+        if letter == "X":
+            # truncated negative reply / negative reply with a response code that does not exist
+            return ("reply", bytes([0x7F, sid]) if idx % 2 == 0 else bytes([0x7F, sid, 0x01]))
+        if letter == "F":
+            return ("reply", bytes([sid + 0x40, req[1], req[2], idx & 0xFF, (idx >> 8) & 0xFF]))
     if letter == "B":
         return ("reply", bytes([0x7F, req[0], 0x21]))
     if letter == "P":
@@ -141,14 +179,15 @@ def delayed(events: list[tuple[Any, ...]], delays: dict[int, float] | None) -> l
 
 
 async def one_run(script: list[str], max_retry: int, timeout: float, override: bool, raw: bool = False,
-                  delays: dict[int, float] | None = None) -> dict[str, Any]:
+                  delays: dict[int, float] | None = None, sid: int | None = None) -> dict[str, Any]:
     import asyncio
 
     from gallia.services.uds.core import service
     from gallia.services.uds.core.client import UDSClient, UDSRequestConfig
     from vf.scripted_transport import ScriptedTransport
 
-    events = delayed([event_bytes(c, i) for i, c in enumerate(script)], delays)
+    pdu = raw_request_pdu(sid)
+    events = delayed([event_bytes(c, i, pdu) for i, c in enumerate(script)], delays)
     tr = ScriptedTransport(events)
     if override:
         cl = UDSClient(tr, timeout=7.0, max_retry=(max_retry + 2) % 4)
@@ -159,10 +198,11 @@ async def one_run(script: list[str], max_retry: int, timeout: float, override: b
     loop = asyncio.get_running_loop()
     t0 = loop.time()
     # the same request in its typed form and as the raw request `send_raw()` builds: matching must be equally strict
-    req = service.RawRequest(REQ) if raw else service.ReadDataByIdentifierRequest(0x1234)
+    # (a service id outside ISO 14229-1 has a raw form only; it goes the way of the public send_raw())
+    req = service.RawRequest(pdu) if raw else service.ReadDataByIdentifierRequest(0x1234)
     out: dict[str, Any] = {}
     try:
-        resp = await cl.request(req, cfg)
+        resp = await (cl.send_raw(pdu, cfg) if sid is not None else cl.request(req, cfg))
         out["kind"] = "return"
         out["pdu"] = resp.pdu
     except BaseException as e:  # classified below
@@ -188,15 +228,22 @@ def classify(out: dict[str, Any]) -> tuple[str, Any]:
 
 
 def check_case(ctx: Any, script: list[str], max_retry: int, timeout: float, override: bool, raw: bool | None = None,
-               delays: dict[int, float] | None = None) -> None:
+               delays: dict[int, float] | None = None, sid: int | None = None) -> None:
+    """`sid`: the request is a raw request for this service id, which ISO 14229-1 does not define (None: ReadDataByIdentifier)"""
     if raw is None:
         raw = override  # every script runs in both request forms (typed with client defaults, raw with per-request overrides)
+    if sid is not None:
+        raw = True
     case = {"script": "".join(script) if len(script) <= 40 else rle(script), "max_retry": max_retry, "timeout": timeout, "override": override, "raw": raw}
     if delays:
         case["delays"] = {str(i): d for i, d in delays.items()}
+    if sid is not None:
+        case["sid"] = sid
+        reach_non_iso(ctx, script, max_retry, "")
     ctx.reach("form.raw" if raw else "form.typed")
     nontrivial = any(c not in "FN" for c in script)
-    ctx.case(("".join(script), max_retry, timeout, override, raw) + ((tuple(sorted(delays.items())),) if delays else ()), nontrivial=nontrivial)
+    ctx.case(("".join(script), max_retry, timeout, override, raw) + ((tuple(sorted(delays.items())),) if delays else ()) + (("sid", sid) if sid is not None else ()),
+             nontrivial=nontrivial)
     if script:
         ctx.reach(f"pos.first:{script[0]}")
         ctx.reach(f"pos.last:{script[-1]}")
@@ -206,12 +253,30 @@ def check_case(ctx: Any, script: list[str], max_retry: int, timeout: float, over
         ctx.reach("override.timeout")
         ctx.reach("override.max_retry")
     try:
-        out = vtime.run(one_run(script, max_retry, timeout, override, raw, delays))
+        out = vtime.run(one_run(script, max_retry, timeout, override, raw, delays, sid))
     except vtime.Deadlock:
-        ctx.violation("client/blocks-forever", "request() can never complete (nothing scheduled, nothing readable)", case)
+        ctx.violation("client/blocks-forever" + (NON_ISO_TAG if sid is not None else ""), "request() can never complete (nothing scheduled, nothing readable)", case)
         return
-    judge(ctx, case, script, [event_bytes(c, i) for i, c in enumerate(script)], max_retry, timeout, out, REQ, delays=delays,
-          source="per-request-override" if override else "client-default")
+    pdu = raw_request_pdu(sid)
+    judge(ctx, case, script, [event_bytes(c, i, pdu) for i, c in enumerate(script)], max_retry, timeout, out, pdu, delays=delays,
+          source="per-request-override" if override else "client-default", tag=NON_ISO_TAG if sid is not None else "")
+
+
+def reach_non_iso(ctx: Any, script: list[str] | str, max_retry: int, prefix: str) -> None:
+    """situations a request for a service id outside ISO 14229-1 is put into (derived from the script, not from what the client did)"""
+    ctx.reach(prefix + "service.non-iso")
+    for c in set(script):
+        ctx.reach(f"{prefix}service.non-iso.event:{c}")
+    # a busy reply while attempts are left: every earlier event of the script costs at most one attempt
+    if max_retry >= 1 and script and script[0] == "B":
+        ctx.reach(prefix + "service.non-iso.busy-with-attempts-left:first-reply")
+    k = next((i for i, c in enumerate(script) if c == "B"), None)
+    if k is not None and k >= 1 and all(c in "TCEW" for c in script[:k]) and k < max_retry:
+        ctx.reach(prefix + "service.non-iso.busy-with-attempts-left:after-retries")
+    if any(a == "P" and b == "B" for a, b in zip(script, script[1:])):
+        ctx.reach(prefix + "service.non-iso.busy-inside-pending-chain")
+    if script and script[-1] == "B" and all(c in "TCEWB" for c in script) and len(script) == max_retry + 1:
+        ctx.reach(prefix + "service.non-iso.busy-on-last-attempt")
 
 
 def judge(ctx: Any, case: dict[str, Any], script: list[str], events: list[tuple[Any, ...]], max_retry: int, timeout: float,
@@ -335,7 +400,8 @@ def effective(spec: dict[str, Any], k: int) -> tuple[int, float]:
 
 
 def seq_request_pdu(x: dict[str, Any]) -> bytes:
-    return bytes([0x22, x["did"] >> 8, x["did"] & 0xFF])
+    """`sid` (raw sequences only): a service id outside ISO 14229-1 instead of ReadDataByIdentifier"""
+    return bytes([x.get("sid") or 0x22, x["did"] >> 8, x["did"] & 0xFF])
 
 
 def seq_events(spec: dict[str, Any], k: int) -> list[tuple[Any, ...]]:
@@ -374,11 +440,11 @@ async def run_sequence(spec: dict[str, Any]) -> list[dict[str, Any]]:
     n_clients = 2 if spec["clients"] == "other" and len(xs) > 1 else 1
     clients = [UDSClient(ScriptedTransport([]), timeout=xs[j]["client_timeout"], max_retry=xs[j]["client_max_retry"]) for j in range(n_clients)]
 
-    def make(did: int) -> Any:
-        return service.RawRequest(bytes([0x22, did >> 8, did & 0xFF])) if spec["raw"] else service.ReadDataByIdentifierRequest(did)
+    def make(x: dict[str, Any]) -> Any:
+        return service.RawRequest(seq_request_pdu(x)) if spec["raw"] else service.ReadDataByIdentifierRequest(x["did"])
 
     loop = asyncio.get_running_loop()
-    req = make(xs[0]["did"])
+    req = make(xs[0])
     outs: list[dict[str, Any]] = []
     for k, x in enumerate(xs):
         cl = clients[k % n_clients]
@@ -387,10 +453,10 @@ async def run_sequence(spec: dict[str, Any]) -> list[dict[str, Any]]:
         cl.timeout = x["client_timeout"]
         if k > 0:
             if spec["request"] == "fresh":
-                req = make(x["did"])
+                req = make(x)
             elif spec["request"] == "same-reassigned":
                 if spec["raw"]:
-                    req.pdu = bytes([0x22, x["did"] >> 8, x["did"] & 0xFF])
+                    req.pdu = seq_request_pdu(x)
                 else:
                     req.data_identifier = x["did"]
         load_script(cl.transport, seq_events(spec, k))
@@ -426,6 +492,9 @@ def check_sequence(ctx: Any, spec: dict[str, Any]) -> None:
         ctx.case(("seq", repr(spec), k), nontrivial=k > 0)
         ctx.reach("seq.exchanges")
         ctx.reach("seq.form.raw" if spec["raw"] else "seq.form.typed")
+        non_iso = x.get("sid") is not None
+        if non_iso:
+            reach_non_iso(ctx, script, mr, "seq.")
         if k > 0:
             pmr, pto = effective(spec, k - 1)
             ctx.reach("seq.later-use")
@@ -452,11 +521,16 @@ def check_sequence(ctx: Any, spec: dict[str, Any]) -> None:
             late_for_prev = any(i > 0 and not cm.in_time_after_pending(d, pto) for i, d in seq_delays(spec, k).items())
             if (slow_reply and pto < SLOW_FRACTION * to) or late_for_prev or cm.outcomes(script, mr, pto) != cm.outcomes(script, mr, to):
                 ctx.reach("seq.later-use.discriminates:timeout")
+            if non_iso:
+                ctx.reach("seq.later-use.service:non-iso")
+            if x.get("sid") != xs[k - 1].get("sid"):
+                # the service id of the request changed with respect to the previous exchange (same request object or a fresh one)
+                ctx.reach(f"seq.later-use.service-changed:{'iso-to-non-iso' if xs[k - 1].get('sid') is None else 'non-iso-to-iso' if not non_iso else 'non-iso-to-non-iso'}")
             if spec["request"] == "same-reassigned" and x["did"] != xs[k - 1]["did"]:
                 ctx.reach("seq.later-use.request:identifier-reassigned")
                 if any(c in "FN" for c in script):
                     ctx.reach("seq.later-use.request:identifier-reassigned+final-reply-scripted")
-                if any(c == "M" and i % 3 == 2 for i, c in enumerate(script)):
+                if not non_iso and any(c == "M" and i % 3 == 2 for i, c in enumerate(script)):
                     ctx.reach("seq.later-use.request:identifier-reassigned+reply-for-old-identifier-scripted")
             elif spec["request"] == "same-unchanged":
                 ctx.reach("seq.later-use.request:same-object-unchanged")
@@ -464,7 +538,7 @@ def check_sequence(ctx: Any, spec: dict[str, Any]) -> None:
                 ctx.reach("seq.later-use.request:fresh-object")
         kind, _ = classify(out)
         prev_kind = "return" if kind == "return" else "missing" if kind == "missing" else "illegal-or-error"
-        judge(ctx, case, script, seq_events(spec, k), mr, to, out, seq_request_pdu(x), tag="/later-exchange-of-a-sequence" if k > 0 else "",
+        judge(ctx, case, script, seq_events(spec, k), mr, to, out, seq_request_pdu(x), tag=("/later-exchange-of-a-sequence" if k > 0 else "") + (NON_ISO_TAG if non_iso else ""),
               delays=seq_delays(spec, k), source="per-request-override" if spec["cfg"]["timeout"] is not None else "client-default")
 
 
@@ -496,8 +570,20 @@ def draw_sequence(rng: Any, cfg_pattern: int, later_script: str | None, randlen:
     xs = [{"script": later_script if (k == 1 and later_script is not None) else script(), "client_max_retry": mrs[k], "client_timeout": tos[k],
            "did": dids[k], "slow": rng.random() < 0.5, "pending_delay": rng.choice(PENDING_DELAY_FRACTIONS) if rng.random() < 0.5 else None}
           for k in range(n)]
+    raw = rng.random() < 0.5
+    if raw and rng.random() < 0.5:
+        # raw requests for a service id outside ISO 14229-1: in every exchange, or in some (the service changes between the exchanges,
+        # unless the very same request is sent again)
+        sids = [rng.choice(NON_ISO_SIDS)]
+        for _ in range(n - 1):
+            sids.append(sids[-1] if request == "same-unchanged" or rng.random() < 0.5 else rng.choice([None] + [q for q in NON_ISO_SIDS if q != sids[-1]]))
+        if request != "same-unchanged" and rng.random() < 0.25:
+            sids[0] = None
+        for x, sid in zip(xs, sids):
+            if sid is not None:
+                x["sid"] = sid
     return {"cfg": {"max_retry": rng.randrange(4) if cfg_pattern & 1 else None, "timeout": rng.choice(SEQ_TIMEOUTS) if cfg_pattern & 2 else None},
-            "clients": rng.choice(["same", "other"]), "request": request, "raw": rng.random() < 0.5, "exchanges": xs}
+            "clients": rng.choice(["same", "other"]), "request": request, "raw": raw, "exchanges": xs}
 
 
 def silence_limit_sequences() -> list[dict[str, Any]]:
@@ -550,6 +636,8 @@ def run(ctx: Any, params: dict[str, Any]) -> None:
                 for mr in (0, 1, 2, 3):
                     for override in (False, True):
                         check_case(ctx, script, mr, 0.3 if not override else 2.0, override)
+                    # ... and as a raw request for a service id outside ISO 14229-1 (the id rotates over the scripts)
+                    check_case(ctx, script, mr, 0.3 if k % 2 else 2.0, bool(k % 2), sid=NON_ISO_SIDS[(k // 2 + mr) % len(NON_ISO_SIDS)])
                 if k % 997 == 0:
                     ctx.sample({"script": "".join(script), "max_retry": [0, 1, 2, 3], "override": [False, True]})
     elif mode == "rand":
@@ -563,7 +651,9 @@ def run(ctx: Any, params: dict[str, Any]) -> None:
             # half of the scripts: replies that directly follow a pending arrive after seconds of silence (each its own fraction of the limit)
             after_pending = pending_delays(script, timeout, 0.0)
             delays = pending_delays(script, timeout, [rng.choice(PENDING_DELAY_FRACTIONS) for _ in after_pending]) if rng.random() < 0.5 else None
-            check_case(ctx, script, mr, timeout, override, rng.random() < 0.5, delays or None)
+            raw = rng.random() < 0.5
+            # half of the raw requests are for a service id outside ISO 14229-1
+            check_case(ctx, script, mr, timeout, override, raw, delays or None, sid=rng.choice(NON_ISO_SIDS) if raw and rng.random() < 0.5 else None)
             if i % 400 == 0:
                 ctx.sample({"script": "".join(script), "max_retry": mr, "timeout": timeout, "override": override})
             if ctx.out_of_time():
@@ -621,6 +711,17 @@ def run(ctx: Any, params: dict[str, Any]) -> None:
                 check_case(ctx, ["P"] + ["T"] * lo + ["F"], mr, timeout, False)  # exactly at the limit: either reading accepted
                 check_case(ctx, ["P", "Z", "F"], mr, timeout, False)
                 check_case(ctx, ["P", "T", "P", "T", "P", "C", "F"], mr, timeout, False)
+        # the long runs for raw requests whose service id is outside ISO 14229-1
+        for j, sid in enumerate(NON_ISO_SIDS):
+            timeout = (0.1, 2.0, 30.0)[j % 3]
+            lo, hi = cm.silence_polls(timeout)
+            for mr in (0, 1, 3):
+                override = bool((j + mr) % 2)
+                for script in (["P"] * 119 + ["F"], ["P"] * 121 + ["F"], ["B", "P"] + ["T"] * (lo // 2) + ["N"], ["P"] + ["T"] * (hi + 1) + ["B", "F"],
+                               ["B"] * 4, ["T", "B", "C", "B", "F"], ["P", "T", "P", "B", "B", "F"]):
+                    check_case(ctx, script, mr, timeout, override, sid=sid)
+                check_case(ctx, ["B", "P", "F"], mr, timeout, override, delays=pending_delays("BPF", timeout, PENDING_DELAY_FRACTIONS[(j + mr) % 4]), sid=sid)
+                ctx.reach("long.service.non-iso")
         ctx.sample({"long": "P*119 F / P*120 F / P T*39 F / P T*41 F ..."})
 
 
@@ -638,4 +739,4 @@ def replay(ctx: Any, witness: dict[str, Any]) -> None:
     for m in re.finditer(r"([A-Z])(?:\*(\d+))?", s):
         script += [m.group(1)] * int(m.group(2) or 1)
     check_case(ctx, script, witness["max_retry"], witness["timeout"], witness["override"], witness.get("raw"),
-               {int(i): d for i, d in witness["delays"].items()} if witness.get("delays") else None)
+               {int(i): d for i, d in witness["delays"].items()} if witness.get("delays") else None, sid=witness.get("sid"))
